@@ -22,9 +22,9 @@ def run(tier, seed, work, replay):
         raise E.Inconclusive("negative control (non-atomic handlers) found no violation")
     cases = []
     for a, b in itertools.combinations_with_replacement(TOK_OPS, 2):
-        cases.append({"world": "tokens", "ops": [a, b], "maxsched": 24 if tier == "quick" else 400})
+        cases.append({"world": "tokens", "ops": [a, b], "maxsched": 24 if tier == "quick" else 200})
     for a, b in itertools.combinations_with_replacement(BOOT_OPS, 2):
-        cases.append({"world": "bootstrap", "ops": [a, b], "maxsched": 24 if tier == "quick" else 400})
+        cases.append({"world": "bootstrap", "ops": [a, b], "maxsched": 24 if tier == "quick" else 200})
     rng = random.Random(seed)
     ntri = 6 if tier == "quick" else 150
     for _ in range(ntri):
@@ -39,7 +39,7 @@ def run(tier, seed, work, replay):
     def execute(cp, tag):
         epath, _ = E.run_harness(binary, PROP, work, cases=cp, events=work.path("events-%s.ndjson" % tag), timeout=2400)
         evs = E.read_ndjson(epath)
-        return evs, E.monitor(work, "Trace_KMConc", "Trace_KMConc.cfg", epath, cov, timeout=1200)
+        return evs, E.monitor_chunked(work, "Trace_KMConc", "Trace_KMConc.cfg", epath, cov, chunk=600, par=8, timeout=1200)
     # free-running concurrent mix under the race detector: reports with a keymaster frame are G_C16_NoRace failures
     rbin = E.build_harness(work, race=True)
     import glob as _g, os as _o, re as _r
@@ -85,6 +85,10 @@ def run(tier, seed, work, replay):
         sg = sig_of(ev, d)
         if E.match_known(PROP, sg, known):
             res.classify(sg, ev, known)
+            ks = cov.setdefault("known_finding_signatures", [])
+            t = "%s | %s | %s" % (",".join(g[6:] for g in sg["guards"]), "+".join(sg["ops"]), sg["world"])
+            if t not in ks:
+                ks.append(t)
         else:
             unknown.append((d, ev, sg))
     if unknown:
